@@ -155,6 +155,10 @@ impl Slatepack {
 
 		to_encrypt.append(&mut self.payload);
 
+		// the metadata (sender, recipients) now travels inside the encrypted payload only:
+		// do not leave a clear copy behind for the JSON form to serialise
+		self.encrypted_meta = default_enc_metadata();
+
 		let rec_keys: Result<Vec<_>, _> = recipients
 			.into_iter()
 			.map(|addr| {
